@@ -440,6 +440,91 @@ fn mdl(_seed: u64) -> W {
     w.mark_at("element_id_count", s + 24, 2);
     w.mark_at("terrain_shadow_mesh_count", s + 26, 1);
     w.mark_at("flags2", s + 27, 1);
+    w.mark_at("terrain_shadow_submesh_count", s + 38, 2);
+    // the tables behind the model header, in file order (layout: src/model.rs ModelData)
+    let cnt = |i: usize| rd16(&w.b, s + 4 + 2 * i);
+    let (mesh_count, attribute_count, submesh_count, material_count, bone_count, bone_table_count, shape_count, shape_mesh_count, shape_value_count) =
+        (cnt(0), cnt(1), cnt(2), cnt(3), cnt(4), cnt(5), cnt(6), cnt(7), cnt(8));
+    let element_ids = rd16(&w.b, s + 24);
+    let ts_meshes = w.b[s + 26] as usize;
+    let ts_submeshes = rd16(&w.b, s + 38);
+    let mut o = s + 56 + 32 * element_ids;
+    for i in 0..3 {
+        let l = o + 60 * i;
+        w.mark_at(&format!("lods[{i}].mesh_index"), l, 2);
+        w.mark_at(&format!("lods[{i}].mesh_count"), l + 2, 2);
+        w.mark_at(&format!("lods[{i}].vertex_buffer_size"), l + 44, 4);
+        w.mark_at(&format!("lods[{i}].index_buffer_size"), l + 48, 4);
+        w.mark_at(&format!("lods[{i}].vertex_data_offset"), l + 52, 4);
+        w.mark_at(&format!("lods[{i}].index_data_offset"), l + 56, 4);
+    }
+    o += 180;
+    for j in 0..mesh_count.min(3) {
+        // the first two meshes and the last one
+        let j = if j == 2 { mesh_count - 1 } else { j };
+        let m = o + 36 * j;
+        w.mark_at(&format!("meshes[{j}].vertex_count"), m, 2);
+        w.mark_at(&format!("meshes[{j}].index_count"), m + 4, 4);
+        w.mark_at(&format!("meshes[{j}].material_index"), m + 8, 2);
+        w.mark_at(&format!("meshes[{j}].submesh_index"), m + 10, 2);
+        w.mark_at(&format!("meshes[{j}].submesh_count"), m + 12, 2);
+        w.mark_at(&format!("meshes[{j}].bone_table_index"), m + 14, 2);
+        w.mark_at(&format!("meshes[{j}].start_index"), m + 16, 4);
+        for k in 0..3 {
+            w.mark_at(&format!("meshes[{j}].vertex_buffer_offsets[{k}]"), m + 20 + 4 * k, 4);
+            w.mark_at(&format!("meshes[{j}].vertex_buffer_strides[{k}]"), m + 32 + k, 1);
+        }
+        w.mark_at(&format!("meshes[{j}].vertex_stream_count"), m + 35, 1);
+    }
+    o += 36 * mesh_count + 4 * attribute_count + 20 * ts_meshes;
+    if submesh_count > 0 {
+        w.mark_at("submeshes[0].index_offset", o, 4);
+        w.mark_at("submeshes[0].index_count", o + 4, 4);
+        w.mark_at("submeshes[0].bone_start_index", o + 12, 2);
+        w.mark_at("submeshes[0].bone_count", o + 14, 2);
+    }
+    o += 16 * submesh_count + 12 * ts_submeshes;
+    if material_count > 0 {
+        w.mark_at("material_name_offsets[0]", o, 4);
+        w.mark_at(&format!("material_name_offsets[{}]", material_count - 1), o + 4 * (material_count - 1), 4);
+    }
+    o += 4 * material_count;
+    if bone_count > 0 {
+        w.mark_at("bone_name_offsets[0]", o, 4);
+        w.mark_at(&format!("bone_name_offsets[{}]", bone_count - 1), o + 4 * (bone_count - 1), 4);
+    }
+    o += 4 * bone_count;
+    if rd32(&w.b, 0) <= 0x0100_0005 {
+        if bone_table_count > 0 {
+            w.mark_at("bone_tables[0].bone_count", o + 128, 1);
+        }
+        o += 132 * bone_table_count;
+        if shape_count > 0 {
+            w.mark_at("shapes[0].string_offset", o, 4);
+            for k in 0..3 {
+                w.mark_at(&format!("shapes[0].shape_mesh_start_index[{k}]"), o + 4 + 2 * k, 2);
+                w.mark_at(&format!("shapes[0].shape_mesh_count[{k}]"), o + 10 + 2 * k, 2);
+            }
+        }
+        o += 16 * shape_count;
+        if shape_mesh_count > 0 {
+            w.mark_at("shape_meshes[0].mesh_index_offset", o, 4);
+            w.mark_at("shape_meshes[0].shape_value_count", o + 4, 4);
+            w.mark_at("shape_meshes[0].shape_value_offset", o + 8, 4);
+        }
+        o += 12 * shape_mesh_count;
+        if shape_value_count > 0 {
+            w.mark_at("shape_values[0].base_indices_index", o, 2);
+            w.mark_at("shape_values[0].replacing_vertex_index", o + 2, 2);
+        }
+        o += 4 * shape_value_count;
+        w.mark_at("submesh_bone_map_size", o, 4);
+        let map = rd32(&w.b, o);
+        o += 4 + map;
+        w.mark_at("padding_amount", o, 1);
+    }
+    let len = w.b.len();
+    w.f.retain(|f| f.off + f.width <= len);
     w
 }
 
